@@ -242,8 +242,28 @@ Definition covers (s need : schema) : bool :=
                      | None => false
                      end) need.
 
-Definition remove_col (t c : string) (s : schema) : schema :=
-  map (fun tc => if String.eqb (fst tc) t then (fst tc, filter (fun x => negb (String.eqb x c)) (snd tc)) else tc) s.
+(* gaps: (table, column) pairs *)
+Definition has_col (s : schema) (g : string * string) : bool :=
+  match lookup (fst g) s with Some cols => mem (snd g) cols | None => false end.
+Definition is_gap (gaps : list (string * string)) (t c : string) : bool :=
+  existsb (fun g => String.eqb (fst g) t && String.eqb (snd g) c) gaps.
+(* `need` without the listed columns; tables left without any column are dropped *)
+Definition remove_gaps (gaps : list (string * string)) (need : schema) : schema :=
+  filter (fun tc => match snd tc with [] => false | _ => true end)
+         (map (fun tc => (fst tc, filter (fun c => negb (is_gap gaps (fst tc) c)) (snd tc))) need).
+
+(* vocabulary for the statements about the generated step list *)
+Definition current_schema (b : schema) : schema := schema_at b (List.length steps).
+Definition latest_id : string := rev_id real_md5 steps.
+(* a database that received the first k steps and carries the stamp of that revision *)
+Definition stamped_db (b : schema) (k : nat) : db :=
+  mkdb (schema_at b k) (RRow (Some (rev_id real_md5 (firstn k steps)))) 0.
+(* ... or carries no stamp: r is RNoTable, REmpty or RRow None *)
+Definition unstamped_db (b : schema) (k : nat) (r : rev) : db := mkdb (schema_at b k) r 0.
+Definition unstamped (r : rev) : Prop := r = RNoTable \/ r = REmpty \/ r = RRow None.
+(* the migration performed by open_database on an existing file *)
+Definition opened (d : db) : conn * list ev := migrate real_md5 steps (mkconn d None).
+Definition raw_stmts (ss : list step) : list string := map fst (List.concat ss).
 
 (* ---------- correspondence cases ---------- *)
 
